@@ -5,6 +5,7 @@
 From Coq Require Import List NArith Bool.
 Import ListNotations.
 From L4 Require Import Common.Str Model.Routing Model.Swap Model.Reloader Proofs.Swap Proofs.Reloader.
+From L4 Require Model.Facade Proofs.SwapFacade.
 
 (* ------------------------------ Part A ------------------------------ *)
 
@@ -89,6 +90,20 @@ Theorem C15_every_thread_finishes :
     exists n, thread_done (Swap.run reent (repeat tid n) st) tid.
 Proof. exact finishes. Qed.
 Print Assumptions C15_every_thread_finishes.
+
+(* The process-global side of the swap (Model/Facade.v: log::max_level + the
+   installed tree; the log! macro tests the level against log::max_level before
+   it calls Log::log).  After init_config(c0) and any sequence of set_config
+   calls has returned, the installed tree is the build of the LAST configuration
+   and a record logged through the macro is delivered exactly along that
+   configuration's route: the global filter never keeps the old verbosity. *)
+Theorem C15_after_swap_facade_new_only :
+  forall c0 cs st,
+    Facade.run_history c0 cs = Some st ->
+    build (last cs c0) = Some (Facade.cur st) /\
+    forall T L, (L <= 5)%N -> Facade.macro_log st T L = deliver (Facade.cur st) T L.
+Proof. exact SwapFacade.facade_new_only. Qed.
+Print Assumptions C15_after_swap_facade_new_only.
 
 (* ------------------------------ Part B ------------------------------ *)
 (* `l0` is any reloader state, `h` any history of file states polled so far. *)
@@ -185,6 +200,18 @@ Example C15_example_reentrant_swap :
   In (ERet (0, 1)%nat) tr /\ In (ERet (1, 0)%nat) tr /\
   map fst (flat_map (fun e => match e with EStore s => [s] | _ => [] end) tr) = [2; 2].
 Proof. vm_compute. repeat split; auto 20. Qed.
+
+(* root level unchanged (3), child `x` raised from 3 to 5: a Trace record for `x`
+   logged through the macro after the swap reaches the new config's appenders *)
+Example C15_example_facade_child_more_verbose :
+  let c1 := {| c_appenders := [[97]; [98]]; c_root_level := 3; c_root_apps := [[97]];
+               c_loggers := [{| l_name := [120]; l_level := 3; l_additive := true; l_apps := [[98]] |}] |} in
+  let c2 := {| c_appenders := [[97]; [98]]; c_root_level := 3; c_root_apps := [[97]];
+               c_loggers := [{| l_name := [120]; l_level := 5; l_additive := true; l_apps := [[98]] |}] |} in
+  option_map (fun st => (Facade.macro_log st [120] 5, Facade.gmax st)) (Facade.run_history c1 []) = Some ([], 3) /\
+  option_map (fun st => (Facade.macro_log st [120] 5, Facade.gmax st)) (Facade.run_history c1 [c2])
+    = Some ([1; 0]%nat, 5).
+Proof. vm_compute. split; reflexivity. Qed.
 
 Definition ex_parse (t : text) : option (N * option N) :=
   match t with
